@@ -410,7 +410,7 @@ func crashScript(g *seqGen, variant int) {
 		c.Fh, c.Name, c.NLen = d, n, len(n)
 		g.learn(g.emit(c))
 	}
-	switch variant % 5 {
+	switch variant % 6 {
 	case 0: // holes filled by non-growing multi-block writes; pre-sized file
 		f := mk("CREATE", root, "f")
 		wr(f, B, B, 2)   // block 1, block 0 stays a hole
@@ -448,6 +448,23 @@ func crashScript(g *seqGen, variant int) {
 		wr(a, 100, 50, 0)
 		mk("MKDIR", root, "d")
 		wr(b, 0, 10, 0)
+	case 5: // more inodes in use than the inode cache holds between an UNSTABLE write and its COMMIT
+		x := mk("CREATE", root, "x")
+		var others []string
+		for i := 0; i < 104; i++ {
+			others = append(others, mk("CREATE", root, fmt.Sprintf("o%03d", i)))
+		}
+		wr(x, 0, 4096, 0)
+		for _, o := range others {
+			simple("GETATTR", o)
+		}
+		simple("COMMIT", x)
+		wr(others[0], 0, 100, 0)
+		for _, o := range others[50:] {
+			simple("GETATTR", o)
+		}
+		simple("COMMIT", others[0])
+		simple("GETATTR", x)
 	case 4: // a request that is refused because its transaction is larger than the journal, between UNSTABLE writes and COMMIT
 		a := mk("CREATE", root, "a")
 		b := mk("CREATE", root, "b")
